@@ -811,6 +811,8 @@ func execProgram(id int, p *Program, emit func(string)) (*failure, bool) {
 	realCps := map[int]*unionstore.MemDBCheckpoint{}
 	var stageObs []string
 	wasDirty := false
+	var snapObj unionstore.MemBufferSnapshot
+	var snapBase map[string][]byte
 	cpObs := map[int]string{}
 	var fail *failure
 	setFail := func(name string, idx int, detail string) {
@@ -1390,6 +1392,105 @@ func execProgram(id int, p *Program, emit func(string)) (*failure, bool) {
 			if !oracle("snapshot-batchget=base-overlay", okS) {
 				setFail("snapshot-batchget=base-overlay", idx, res)
 			}
+		case "snapnew", "snapget", "snapscan":
+			// a MemBufferSnapshot object (GetSnapshot) kept across operations: it answers with the staging-blind view
+			// of its creation as long as SnapshotSeqNo has not moved, and refuses ("invalid iter") afterwards
+			if _, hasSeq := unionstore.VerifUnionSnapshotSeq(buf); !hasSeq {
+				continue // RBT keeps no sequence number: its snapshot objects never refuse (code behaviour, not compared)
+			}
+			if o.Op == "snapnew" {
+				pan := protect(func() { snapObj = buf.GetSnapshot() })
+				snapBase = copyMap(ref.buf)
+				if len(ref.stack) > 0 {
+					snapBase = copyMap(ref.stack[0])
+				}
+				res := "ok"
+				if pan != "" {
+					res = "panic"
+				}
+				line(idx, "snapnew", nil, res)
+				continue
+			}
+			if snapObj == nil {
+				continue
+			}
+			res, okO := "", true
+			if o.Op == "snapget" {
+				k := unhx(o.K)
+				var ve kv.ValueEntry
+				var gerr error
+				pan := protect(func() { ve, gerr = snapObj.Get(context.Background(), k) })
+				switch {
+				case pan != "":
+					res = "panic"
+				case gerr == nil:
+					res = "v " + hd(hx(ve.Value))
+				case tikverr.IsErrNotFound(gerr):
+					res = "nf"
+				case strings.Contains(gerr.Error(), "invalid iter"):
+					res = "invalid"
+				default:
+					res = "err"
+				}
+				line(idx, "snapget", []string{hd(o.K)}, res)
+				if res != "invalid" {
+					want := "nf"
+					if bv, has := snapBase[string(k)]; has {
+						want = "v " + hd(hx(bv))
+					}
+					okO = res == want
+				}
+			} else {
+				lo, hi := unhx(o.Lo), unhx(o.Hi)
+				rev := o.H == 1
+				var l []KV
+				invalid := false
+				pan := protect(func() {
+					it := snapObj.BatchedSnapshotIter(lo, hi, rev)
+					for n := 0; it.Valid() && n < maxIter; n++ {
+						l = append(l, KV{append([]byte{}, it.Key()...), append([]byte{}, it.Value()...)})
+						if e := it.Next(); e != nil {
+							invalid = true
+							break
+						}
+					}
+					if e := it.Next(); e != nil && strings.Contains(e.Error(), "invalid iter") {
+						invalid = true
+					}
+					it.Close()
+				})
+				res = kvsString(l)
+				if invalid {
+					res = "invalid"
+				}
+				if pan != "" {
+					res = "panic"
+				}
+				dir := "fwd"
+				if rev {
+					dir = "rev"
+				}
+				line(idx, "snapscan", []string{hd(o.Lo), hd(o.Hi), dir}, res)
+				if res != "invalid" {
+					var wl []KV
+					for k, v := range snapBase {
+						if inBounds([]byte(k), lo, hi) {
+							wl = append(wl, KV{[]byte(k), v})
+						}
+					}
+					sort.Slice(wl, func(i, j int) bool {
+						c := bytes.Compare(wl[i].K, wl[j].K)
+						if rev {
+							return c > 0
+						}
+						return c < 0
+					})
+					okO = kvsString(wl) == res
+				}
+			}
+			if !oracle("snapshot-object=view-at-creation-or-invalid", okO) {
+				setFail("snapshot-object=view-at-creation-or-invalid", idx, res)
+			}
 		case "siter", "sriter":
 			lo, hi := unhx(o.Lo), unhx(o.Hi)
 			rev := o.Op == "sriter"
@@ -1827,8 +1928,12 @@ func genProgram(r *rand.Rand, targetKind string, nops int, big bool) *Program {
 					ks = append(ks, ks[r.Intn(len(ks))])
 				}
 				p.Ops = append(p.Ops, Op{Op: "sbget", Keys: ks})
-			} else {
+			} else if r.Intn(2) == 0 {
 				p.Ops = append(p.Ops, Op{Op: "sget", K: hx(pick())})
+			} else if r.Intn(3) == 0 {
+				p.Ops = append(p.Ops, Op{Op: "snapnew"})
+			} else {
+				p.Ops = append(p.Ops, Op{Op: "snapget", K: hx(pick())})
 			}
 		case x >= 118 && x < 121:
 			kind := "siter"
@@ -1837,7 +1942,16 @@ func genProgram(r *rand.Rand, targetKind string, nops int, big bool) *Program {
 			}
 			p.Ops = append(p.Ops, Op{Op: kind, Lo: hx(genBound(r, pool)), Hi: hx(genBound(r, pool))})
 		case x >= 121 && x < 123:
-			p.Ops = append(p.Ops, Op{Op: "hist", K: hx(pick())})
+			switch r.Intn(5) {
+			case 0:
+				p.Ops = append(p.Ops, Op{Op: "snapnew"})
+			case 1, 2:
+				p.Ops = append(p.Ops, Op{Op: "snapget", K: hx(pick())})
+			case 3:
+				p.Ops = append(p.Ops, Op{Op: "snapscan", Lo: hx(genBound(r, pool)), Hi: hx(genBound(r, pool)), H: r.Intn(2)})
+			default:
+				p.Ops = append(p.Ops, Op{Op: "hist", K: hx(pick())})
+			}
 		case x >= 123 && x < 125:
 			if tr.depth() > 0 {
 				p.Ops = append(p.Ops, Op{Op: "inspect", H: 1 + r.Intn(tr.depth())})
